@@ -116,7 +116,10 @@ class Ctx:
     def prepare_tree(self, generate=True):
         """rsync /repo (working tree, not HEAD) into scratch, add overlay, run go generate."""
         os.makedirs(self.tree, exist_ok=True)
-        rc, out = sh(["rsync", "-a", "--delete", "--exclude", ".git", REPO + "/", self.tree + "/"])
+        # the two `go generate` artefacts are never taken from the source tree (they are git-ignored and may be
+        # stale there): they are always produced here from the tree's own inputs by the tree's own generators
+        rc, out = sh(["rsync", "-a", "--delete", "--exclude", ".git", "--exclude", "/internal/cli/app/lib.zip",
+                      "--exclude", "/internal/i18n/messages.go", "--exclude", "/SEED", REPO + "/", self.tree + "/"])
         if rc != 0:
             raise RuntimeError("rsync failed: " + out)
         # overlay: shared helper packages plus only this property's harness files
